@@ -46,6 +46,24 @@ static int run(const std::string& mode, const M& in, bool dominant) {
   return 0;
 }
 
+// operator*(Matrix4) / operator*=(Matrix4): the real product against sum_z A.m[z][y] * B.m[x][z] (accumulated from 0, z ascending),
+// with the right operand either a separate matrix or the left operand itself
+static int product(const std::string& mode, const M& a, const M& b, bool alias) {
+  const M& rb = alias ? a : b;
+  M want;
+  for (size_t x = 0; x < 4; x++) for (size_t y = 0; y < 4; y++) { double v = 0; for (size_t z = 0; z < 4; z++) v += a.m[z][y] * rb.m[x][z]; want.m[x][y] = v; }
+  M got = a, ret;
+  if (mode == "mulm") { got = alias ? (got * got) : (got * b); ret = got; }
+  else if (alias) ret = (got *= got);
+  else ret = (got *= b);
+  printf("%s, right operand %s\nA = %s\nB = %s\n", mode.c_str(), alias ? "is the left operand itself" : "separate", a.str().c_str(), rb.str().c_str());
+  for (size_t x = 0; x < 4; x++) for (size_t y = 0; y < 4; y++) {
+    RCHECK(same(got.m[x][y], want.m[x][y]), "product entry m[%zu][%zu] = %.17g, sum_z A.m[z][%zu] * B.m[%zu][z] = %.17g", x, y, got.m[x][y], y, x, want.m[x][y]);
+    RCHECK(same(ret.m[x][y], want.m[x][y]), "returned entry m[%zu][%zu] = %.17g, the product entry is %.17g", x, y, ret.m[x][y], want.m[x][y]);
+  }
+  return 0;
+}
+
 int main(int argc, char** argv) {
   Args A(argc, argv);
   M in, dom;
@@ -56,6 +74,24 @@ int main(int argc, char** argv) {
     in.m[k / 4][k % 4] = d;
     dom.m[k / 4][k % 4] = (double)((int64_t)((bits ^ (bits >> 17) ^ (k * 2654435761u)) % 7) - 3) + ((k / 4 == k % 4) ? 16.0 : 0.0);
     if (k / 4 != k % 4 && dom.m[k / 4][k % 4] == 0.0) dom.m[k / 4][k % 4] = 1.0;
+  }
+  if (A.mode == "mulm" || A.mode == "imulm") {
+    M b, sa, sb;
+    for (size_t k = 0; k < 16; k++) {
+      char name[16]; snprintf(name, sizeof(name), "in_f%zu", k);
+      uint64_t bits = A.u(name), abits; double d; memcpy(&d, &bits, 8); b.m[k / 4][k % 4] = d;
+      memcpy(&abits, &in.m[k / 4][k % 4], 8);
+      // small-integer matrices derived from the counterexample (exact arithmetic): the verifier's values are over uninterpreted arithmetic
+      sa.m[k / 4][k % 4] = (double)((int64_t)((abits ^ (abits >> 17) ^ (k * 2654435761u)) % 9) - 4);
+      sb.m[k / 4][k % 4] = (double)((int64_t)((bits ^ (bits >> 13) ^ (k * 40503u)) % 9) - 4);
+      if (sa.m[k / 4][k % 4] == 0.0) sa.m[k / 4][k % 4] = (double)(k % 3 + 1);
+    }
+    bool alias = A.u("in_alias") != 0;
+    if (int r = product(A.mode, in, b, alias)) return r;
+    printf("the counterexample matrices agree under IEEE arithmetic; derived small-integer matrices:\n");
+    if (int r = product(A.mode, sa, sb, alias)) return r;
+    printf("holds on these inputs\n");
+    return 0;
   }
   if (A.mode != "invert" && A.mode != "inverse") { fprintf(stderr, "unknown mode\n"); return 2; }
   if (int r = run(A.mode, in, false)) return r;
